@@ -154,6 +154,9 @@ UnOp(op, a) ==
 \* scopes: sequence of functions name -> value, innermost last
 Lookup(sc, n) == LET S == {i \in 1..Len(sc) : n \in DOMAIN sc[i]} IN
                  IF S = {} THEN Err("undefined") ELSE Ok(sc[CHOOSE i \in S : \A j \in S : j <= i][n])
+\* the module's constants: the bottom scope of every route and every function body; no statement may assign them
+GlobalFrame == LET cs == Progs[pi].consts IN [n \in {cs[i].n : i \in 1..Len(cs)} |-> (CHOOSE x \in {cs[i] : i \in 1..Len(cs)} : x.n = n).v]
+IsModuleConst(sc, n) == n \in DOMAIN sc[1] /\ \A i \in 2..Len(sc) : n \notin DOMAIN sc[i]
 \* nesting of function calls: each call's scope records it under a name no program can spell
 MaxCalls == 24
 CallDepth(sc) == IF \E i \in 1..Len(sc) : "%depth" \in DOMAIN sc[i] THEN Lookup(sc, "%depth").v.v ELSE 0
@@ -342,6 +345,7 @@ Eval(e, sc) ==
             ELSE LET fs == Progs[pi].funcs
                      S == {i \in 1..Len(fs) : fs[i].name = e.fn} IN
                  IF S = {} THEN Err("undefined")
+                 ELSE IF Defined(sc, e.fn) THEN Err("type")      \* a variable of that name is in the way: not a function
                  ELSE LET f == fs[CHOOSE i \in S : TRUE] IN
                       IF Len(av.v) > Len(f.params) THEN Err("type")        \* too many arguments; missing ones are null
                       ELSE IF CallDepth(sc) >= MaxCalls THEN Err("limit")      \* calls nested deeper than the model follows
@@ -349,7 +353,7 @@ Eval(e, sc) ==
                                         [n \in {f.params[i] : i \in 1..Len(f.params)} |->
                                           LET i == CHOOSE j \in 1..Len(f.params) : f.params[j] = n IN IF i <= Len(av.v) THEN av.v[i] ELSE VNull]
                                \* lexical scoping: the body sees its parameters and its own variables, never the caller's
-                               r == ExecBlock(f.body, <<scope>>, MaxFuel, 1) IN
+                               r == ExecBlock(f.body, <<GlobalFrame, scope>>, MaxFuel, 1) IN
                            CASE r.ctl = "error" -> Err(r.val)
                              [] r.ctl \in {"return", "next"} -> (IF r.st # 200 THEN Err("UNREP") ELSE Ok(r.val))
                              [] OTHER -> Err("loopctl")
@@ -557,12 +561,14 @@ Exec(s, sc, fuel) ==
     ELSE
     CASE s.s = "decl" ->          \* $ x = e
             IF s.n \in DOMAIN sc[Len(sc)] THEN R(sc, "error", "redeclare", fuel)
+            ELSE IF IsModuleConst(sc, s.n) THEN R(sc, "error", "const", fuel)
             ELSE LET v == Eval(s.x, sc) IN
                  IF ~v.ok THEN R(sc, "error", v.err, fuel)
                  ELSE IF Defined(sc, s.n) THEN R(SetVar(sc, s.n, v.v), "next", v.v, fuel - 1)     \* visible in an outer scope: update it
                  ELSE R(DefineVar(sc, s.n, v.v), "next", v.v, fuel - 1)
       [] s.s = "set" ->           \* x = e
             IF ~Defined(sc, s.n) THEN R(sc, "error", "undefined", fuel)
+            ELSE IF s.n \in DOMAIN sc[1] THEN R(sc, "error", "const", fuel)      \* by name: also when a parameter or loop variable of that name is nearer
             ELSE LET v == Eval(s.x, sc) IN
                  IF ~v.ok THEN R(sc, "error", v.err, fuel) ELSE R(SetVar(sc, s.n, v.v), "next", v.v, fuel - 1)
       [] s.s = "expr" ->
@@ -640,7 +646,7 @@ Switch(s, v, sc, fuel, i) ==
 
 \* a route body: variables bound by the request live in the outermost scope
 Run(p) ==
-    LET sc0 == <<[n \in {p.vars[i].n : i \in 1..Len(p.vars)} |-> (CHOOSE x \in {p.vars[i] : i \in 1..Len(p.vars)} : x.n = n).v]>>
+    LET sc0 == <<GlobalFrame, [n \in {p.vars[i].n : i \in 1..Len(p.vars)} |-> (CHOOSE x \in {p.vars[i] : i \in 1..Len(p.vars)} : x.n = n).v]>>
         r == ExecBlock(p.body, sc0, MaxFuel, 1) IN
     \* "toobig": the program grows a string or array beyond what the definition holds (typically by doubling it in a
     \* loop); such programs are not run on the engines either - nothing bounds the memory an evaluation may take
@@ -742,7 +748,9 @@ Src(p) == SrcB(p.body, 1, 1)
 RECURSIVE SrcParams(_, _), SrcFuncs(_, _)
 SrcParams(ps, i) == IF i > Len(ps) THEN "" ELSE ps[i] \o ": any" \o (IF i < Len(ps) THEN ", " ELSE "") \o SrcParams(ps, i + 1)
 SrcFuncs(fs, i) == IF i > Len(fs) THEN "" ELSE "! " \o fs[i].name \o "(" \o SrcParams(fs[i].params, 1) \o ") {\n" \o SrcB(fs[i].body, 1, 1) \o "}\n\n" \o SrcFuncs(fs, i + 1)
-Pre(p) == SrcFuncs(p.funcs, 1)
+RECURSIVE SrcConsts(_, _)
+SrcConsts(cs, i) == IF i > Len(cs) THEN "" ELSE "const " \o cs[i].n \o " = " \o SrcV(cs[i].v) \o "\n" \o (IF i = Len(cs) THEN "\n" ELSE "") \o SrcConsts(cs, i + 1)
+Pre(p) == SrcConsts(p.consts, 1) \o SrcFuncs(p.funcs, 1)
 
 (* ---- one state per program ----------------------------------------------------------------------- *)
 Init == pi \in 1..Len(Progs) /\ result = [kind |-> "pending"]
